@@ -14,6 +14,7 @@ META = {
         "eigsh is a contract stub: it returns fresh symbolic (lambda_k, v_k) for the matrices it was given; the obligations are that these matrices are exactly (sum_i m_i K_i)[dof1][:, dof1] and "
         "(sum_i M_i)[dof1][:, dof1] (multiplier, resize for smaller items), so that K v = lambda M v holds on the free unknowns for the K and M assembled from the items",
         "items: SolidBody with linear-elastic / Neo-Hookean material on tiny meshes (quad4 x2, hex8), a mixed (u, p, J) container whose extra fields carry no mass; symbolic Young's modulus, density, multiplier",
+        "the free / prescribed split used by the analysis is compared with an independent enumeration (non-skipped components of the masked points plus every unknown of a point without cells; one mesh has a trailing cell-less point), not only with the library's dof.partition",
         "extract(n): field values = eigenvector scattered to the free unknowns, zero on all prescribed unknowns, frequency^2 (2 pi)^2 = lambda_n",
         "rigid-body modes: K v = 0 for the symbolic family v = a + omega x X on the unconstrained body (3 parameters in 2-D, 6 in 3-D): at least 3 / 6 zero modes; invariance of K and M under a symbolic rigid "
         "motion of a one-cell mesh (thorough)",
@@ -42,6 +43,8 @@ class EigStub:
 def case_pencil(ctx, variant):
     with ctx.concrete():
         m = tiny_mesh({"hex8": "hex8", "axisymmetric": "quad4axi"}.get(variant, "quad4x2"))
+        if variant == "cellless":
+            m.update(points=np.vstack([m.points, [[3.0, 2.5]]]))  # a trailing point without cells: all its unknowns are prescribed
         region = (fem.RegionQuad if m.dim == 2 else fem.RegionHexahedron)(m)
     E, rho = ctx.var("E", 0.5, 5), ctx.var("rho", 0.1, 5)
     items = []
@@ -92,6 +95,15 @@ def case_pencil(ctx, variant):
         field = x0
     call = stub.calls[-1]
     dof0, dof1 = fem.dof.partition(field, bounds)
+    # the split itself, independently of dof.partition: prescribed are the non-skipped components of the masked points of the first
+    # field plus every unknown of a point without cells; fields are laid out consecutively, point-major
+    d0 = field[0].values.shape[1]
+    skipped = (0, 1, 0)[: m.dim]
+    exp0 = {int(pt) * d0 + c for pt in np.where(mask)[0] for c in range(d0) if c < len(skipped) and not skipped[c]}
+    with ctx.concrete():
+        used = set(int(i) for i in np.unique(m.cells))
+    exp0 |= {pt * d0 + c for pt in range(m.npoints) if pt not in used for c in range(d0)}
+    ctx.check_concrete("prescribed_unknowns_are_the_boundary_and_the_cell_less_points", set(int(k) for k in dof0) == exp0 and sorted(set(int(k) for k in dof1) | exp0) == list(range(n)) and not (set(int(k) for k in dof1) & exp0))
     Kt = np.zeros((n, n), dtype=object if ctx.sym else float)
     Mt = np.zeros((n, n), dtype=object if ctx.sym else float)
     for it in items:
@@ -200,7 +212,7 @@ def case_rigid_invariance(ctx):
 
 
 def cases(tier):
-    out = [("pencil", case_pencil, {"variant": v}) for v in ("single", "two_items", "multiplier_first", "three_items", "mixed", "x0", "axisymmetric")]
+    out = [("pencil", case_pencil, {"variant": v}) for v in ("single", "two_items", "multiplier_first", "three_items", "mixed", "x0", "axisymmetric", "cellless")]
     out.append(("fresh_instances", case_fresh_instances, {}))
     out.append(("rigid_modes", case_rigid_modes, {"dim": 2}))
     out.append(("rigid_modes", case_rigid_modes, {"dim": 3}))
